@@ -54,9 +54,10 @@ def judge(spec, res, ref):
              % ([g[0] for g in got][:6], [w[0] for w in want][:6]))
     if out["timed_out"]:
         viol("spurious_timeout_flag", "timed_out set although the timeout (%s) was never reached" % spec["timeout"])
-    if not V and out["text"] != ref["text"]:
+    want_text = ref.get("text_cli") if spec.get("via_cli") else ref["text"]
+    if not V and want_text is not None and out["text"] != want_text:
         import difflib
-        d = list(difflib.unified_diff(ref["text"].split("\n"), out["text"].split("\n"), lineterm="", n=0))[:6]
+        d = list(difflib.unified_diff(want_text.split("\n"), out["text"].split("\n"), lineterm="", n=0))[:6]
         viol("report_differs_between_runs", "report text differs from the sequential run: %r" % (d,))
     left = [pid for pid, dead, joined in res.captured.get("procs_at_exit", []) if not dead]
     if left:
@@ -120,7 +121,8 @@ def run_params(rng, klen):
     else:
         threshold = 1 if r < 0.7 else (klen if r < 0.9 else klen + 1)
     timeout = rng.choice([-1, -1, GENEROUS, 1.0e4])
-    return {"workers": workers, "threshold": threshold, "timeout": timeout, "speeds": list(procs.SPEEDS)}
+    return {"workers": workers, "threshold": threshold, "timeout": timeout, "speeds": list(procs.SPEEDS),
+            "via_cli": rng.random() < 0.15}
 
 
 def make_spec(cs, params):
@@ -175,6 +177,8 @@ def run_job(job):
             continue
         probes(agg, spec, res, facts)
         agg.states.add("klen%d|w%d|%s" % (case.klen, facts["workers"], facts["branch"]))
+        if spec.get("via_cli"):
+            agg.probes["run_through_cli_entry_point(osaca.osaca.run)"] += 1
         arrival = tuple(e[3] for e in res.sim.log if len(e) > 2 and e[2] == "apply" and e[4] == "extend")
         agg.states.add("arrival:%s:%x" % (case.cid[:6], hash(arrival) & 0xffffffff))
         if facts["started"] > 1 and facts["n_lcd"] > 0:
